@@ -45,3 +45,31 @@ Proof.
   split; [apply zlist_eqb_sound_gen; assumption|].
   split; apply strlist_eqb_sound_gen; assumption.
 Qed.
+
+(* spectra: an accepted case certifies that the observed k-space array is, entry by entry and
+   component by component, within rel_tol * (l1 size of the spectrum) of the model's arrangement of
+   the independently evaluated DFT bins - and the other way round *)
+Open Scope Q_scope.
+Definition cplx_near (tol : Q) (a b : cplx) : Prop :=
+  Qabs (fst a - fst b) <= tol /\ Qabs (snd a - snd b) <= tol.
+
+Lemma cplx_close_sound tol a b : cplx_close tol a b = true -> cplx_near tol a b.
+Proof.
+  unfold cplx_close, cplx_near. intro H. apply andb_true_iff in H. destruct H as [H1 H2].
+  split; apply Qle_bool_imp_le; assumption.
+Qed.
+
+Lemma check_arr_sound real n_ bins arr :
+  check_C11 (CArr real n_ bins arr) = true ->
+  Z.of_nat (length bins) = zprod n_ /\
+  Forall2 (Forall2 (cplx_near (rel_tol * l1 bins))) (arrange [] real n_ bins) arr /\
+  Forall2 (Forall2 (cplx_near (rel_tol * l1 bins)))
+          (unarrange [] real (kshape real n_) arr) (half_spectrum [] real n_ bins).
+Proof.
+  cbn [check_C11]. intro H.
+  apply andb_true_iff in H. destruct H as [H H3].
+  apply andb_true_iff in H. destruct H as [H1 H2].
+  split; [apply Z.eqb_eq; exact H1|]. split.
+  - revert H2. apply forallb2_Forall2_gen. intros x y. apply forallb2_Forall2_gen. apply cplx_close_sound.
+  - revert H3. apply forallb2_Forall2_gen. intros x y. apply forallb2_Forall2_gen. apply cplx_close_sound.
+Qed.
